@@ -8,7 +8,7 @@ import json
 import hsupport, oshar
 
 PROPERTY = 'C08'
-BUDGET = {'quick': 900, 'thorough': 3000}
+BUDGET = {'quick': 900, 'thorough': 1500}
 FAMILIES = ('pipe', 'redir')
 ASSUMPTIONS = [
     'POSIX descriptor model (osmodel.py): lowest-free allocation, dup/dup2/close/pipe/open semantics; one injected failure per run at any pipe/dup/open/fork/tcsetpgrp call (subsumes every RLIMIT_NOFILE value for one failing call)',
